@@ -1679,6 +1679,7 @@ pub fn seq_profile(prop: &str) -> Option<(SeqCfg, Opts)> {
 		}
 		"C04" => {
 			let mut cfg = seq_cfg_general();
+			cfg.w.kill = 2;
 			cfg.w.phantom_hold = 5;
 			cfg.w.p_try = 150;
 			cfg.w.p_transient = 128;
@@ -1687,6 +1688,8 @@ pub fn seq_profile(prop: &str) -> Option<(SeqCfg, Opts)> {
 		}
 		"C03" => {
 			let mut cfg = seq_cfg_general();
+			cfg.w.kill = 2;
+			cfg.w.p_unwinding_drop = 30;
 			cfg.w.p_panic = 40;
 			cfg.w.phantom_hold = 4;
 			cfg.w.p_unlock_fn = 150;
@@ -1696,6 +1699,8 @@ pub fn seq_profile(prop: &str) -> Option<(SeqCfg, Opts)> {
 		}
 		"C05" => {
 			let mut cfg = seq_cfg_general();
+			cfg.w.kill = 2;
+			cfg.w.p_unwinding_drop = 30;
 			cfg.w.phantom_hold = 4;
 			cfg.w.p_transient = 128;
 			cfg.w.p_panic = 30;
@@ -1753,6 +1758,7 @@ pub fn seq_profile(prop: &str) -> Option<(SeqCfg, Opts)> {
 			cfg.w = StepW {
 				guard_ops: 12,
 				p_panic: 90,
+				p_unwinding_drop: 40,
 				is_poisoned: 6,
 				clear_poison: 3,
 				phantom_hold: 1,
@@ -1769,6 +1775,8 @@ pub fn seq_profile(prop: &str) -> Option<(SeqCfg, Opts)> {
 			cfg.w.p_panic = 140;
 			cfg.w.guard_ops = 12;
 			cfg.w.phantom_hold = 1;
+			cfg.w.p_unwinding_drop = 50;
+			cfg.w.kill = 1;
 			let opts = Opts::default();
 			Some((cfg, opts))
 		}
